@@ -2434,6 +2434,12 @@ def _get_at(self, key: NestedKey, *args, **kwargs):
         default = NO_DEFAULT
 
     try:
+        if len(key) == 1 and key[0] in self._tensordict.keys():
+            # index the entry, then unwrap: a non-tensor value is not indexed itself
+            out = self._tensordict.get_at(key[0], index)
+            if is_non_tensor(out):
+                return out.data if not isinstance(out, NonTensorStack) else out.tolist()
+            return out
         return self.get(key, NO_DEFAULT)[index]
     except (AttributeError, KeyError):
         if default is NO_DEFAULT:
